@@ -175,6 +175,7 @@ func c16Obs(ns []*c16Node) []Obs {
 type c16Prog struct {
 	files  map[string][]*c16El
 	layout bool
+	wrap   map[string]int // how a component file is wrapped: 0 not at all, 1 <template v-if>, 2 <template v-for>, 3 v-if/v-else
 }
 
 func (p c16Prog) fs(real bool) fstest.MapFS {
@@ -186,6 +187,16 @@ func (p c16Prog) fs(real bool) fstest.MapFS {
 		}
 		if name == "layouts/lay.vuego" {
 			src = "---\nlink: L\n---\n" + src + `<main v-html="content"></main>`
+		}
+		// a component file may begin with a <template> that is a condition or a loop: its v-once elements are
+		// elements of that file like any other
+		switch p.wrap[name] {
+		case 1:
+			src = `<template v-if="link">` + src + `</template>`
+		case 2:
+			src = `<template v-for="w in l2">` + src + `</template>`
+		case 3:
+			src = `<template v-if="boom2">no</template><template v-else>` + src + `</template>`
 		}
 		m[name] = &fstest.MapFile{Data: []byte(src)}
 	}
@@ -243,6 +254,7 @@ func runC16(r *Run) {
 		g.slots = true
 		p.files["a.vuego"] = g.tree(1, nil)
 		p.files["b.vuego"] = g.tree(1, []string{"a.vuego"})
+		p.wrap = map[string]int{"a.vuego": Pick(rr, []int{0, 0, 1, 2, 3}), "b.vuego": Pick(rr, []int{0, 0, 0, 1, 2})}
 		g.slots = false
 		p.files["page.vuego"] = g.tree(2, []string{"a.vuego", "b.vuego", "a.vuego"})
 		entry := Pick(rr, entries)
